@@ -1,6 +1,6 @@
 (* Dispatcher: one protocol line in, one observation line out.  This is the function the
    extracted driver (ocaml/driver.ml) and the in-Coq cross-check (Eval vm_compute) both run. *)
-From OA Require Import Bytes Proto ErrorCodes DevicePoll DeviceKinds FormUrlencoded Base64 Sha256 Requests Pkce AuthUrl ReqSpec Secrets ClientCfg UrlTypes Json Endpoint Serde Http.
+From OA Require Import Bytes Proto ErrorCodes DevicePoll DeviceKinds FormUrlencoded Base64 Sha256 Requests Pkce AuthUrl ReqSpec Secrets ClientCfg UrlTypes Json Endpoint Serde Http DebugFmt DebugShapes.
 From Coq Require Import ZArith.
 
 Definition run_c14 (ws : list bytes) : bytes :=
@@ -781,6 +781,24 @@ Definition run_decode (ws : list bytes) : bytes :=
   | _ => bad_case
   end.
 
+(* ---------------------------------------------------------------- C10: Debug formatting *)
+
+(* DBG pretty container pubs secs phantom *)
+Definition run_dbg (ws : list bytes) : bytes :=
+  match ws with
+  | [pr; kind; pubs; secs; phn] =>
+      match untok_bool pr, untok_list pubs, untok_list secs, untok_bytes phn with
+      | Some pr, Some [a0; a1; a2; a3; a4], Some [b0; b1; b2; b3], Some phn =>
+          match shape kind {| p0 := a0; p1 := a1; p2 := a2; p3 := a3; p4 := a4;
+                              s0 := b0; s1 := b1; s2 := b2; s3 := b3; phantom := phn |} with
+          | Some d => tok_bytes (render pr 0 d)
+          | None => bad_case
+          end
+      | _, _, _, _ => bad_case
+      end
+  | _ => bad_case
+  end.
+
 Definition run_line (line : bytes) : bytes :=
   match words line with
   | p :: ws =>
@@ -806,6 +824,7 @@ Definition run_line (line : bytes) : bytes :=
       else if is_kw "CFG" p then run_cfg ws
       else if is_kw "URLT" p then run_urlt ws
       else if is_kw "HTTP" p then run_http ws
+      else if is_kw "DBG" p then run_dbg ws
       else if is_kw "DECODE" p then run_decode ws
       else if is_kw "URLP" p then run_urlp ws
       else if is_kw "REQM2" p then monitor_req false ws
